@@ -130,7 +130,7 @@ ParseQuant(s, i) ==
                      ELSE QLazy(s, j2 + 1, mn, DecVal(s, j1 + 1, j2 - 1))  \* {n,m}
       [] OTHER -> [k |-> "none"]
 
-RECURSIVE ParseDisj(_, _, _), ParseAlt(_, _, _, _), ParseTerm(_, _, _), ParseAtom(_, _, _)
+RECURSIVE ParseDisj(_, _, _), ParseAlt(_, _, _, _), ParseTerm(_, _, _), ParseTerm0(_, _, _), ParseAtom(_, _, _), GoGroup(_, _, _)
 (* Disjunction :: Alternative | Alternative "|" Disjunction ; nc = number of  *)
 (* capturing parentheses to the left                                          *)
 ParseDisj(s, i, nc) ==
@@ -146,13 +146,24 @@ ParseAlt(s, i, nc, acc) ==
     IF i > Len(s) \/ s[i] \in {124, 41} THEN [ok |-> TRUE, n |-> acc, i |-> i, nc |-> nc]
     ELSE LET t == ParseTerm(s, i, nc) IN
          IF ~t.ok THEN t ELSE ParseAlt(s, t.i, t.nc, Append(acc, t.n))
-(* Term :: Assertion | Atom | Atom Quantifier *)
+(* Term :: Assertion | Atom | Atom Quantifier.  Every term node also carries  *)
+(* id = its position in the source (used only to tell program points apart   *)
+(* in the engine model GoRun below)                                          *)
+(* the engine's grammar lets * + ? (and a lazy mark) follow an assertion:    *)
+(* x* and x? of an empty-width x always succeed, x+ is x                     *)
+AsrtTerm(s, a, j, nc) ==
+    IF D("D10_quantified_assertion_accepted") /\ RxAt(s, j) \in {42, 43, 63}
+    THEN [ok |-> TRUE, n |-> IF s[j] = 43 THEN [k |-> "asrt", a |-> a] ELSE [k |-> "grp", cap |-> 0, d |-> [k |-> "alt", alts |-> <<<<>>>>]],
+          i |-> IF RxAt(s, j + 1) = 63 THEN j + 2 ELSE j + 1, nc |-> nc]
+    ELSE [ok |-> TRUE, n |-> [k |-> "asrt", a |-> a], i |-> j, nc |-> nc]
 ParseTerm(s, i, nc) ==
+    LET r == ParseTerm0(s, i, nc) IN IF ~r.ok THEN r ELSE [r EXCEPT !.n = [id |-> i] @@ r.n]
+ParseTerm0(s, i, nc) ==
     LET c == s[i] IN
-    IF c = 94 THEN [ok |-> TRUE, n |-> [k |-> "asrt", a |-> "bol"], i |-> i + 1, nc |-> nc]
-    ELSE IF c = 36 THEN [ok |-> TRUE, n |-> [k |-> "asrt", a |-> "eol"], i |-> i + 1, nc |-> nc]
-    ELSE IF c = 92 /\ RxAt(s, i + 1) = 98 THEN [ok |-> TRUE, n |-> [k |-> "asrt", a |-> "wb"], i |-> i + 2, nc |-> nc]
-    ELSE IF c = 92 /\ RxAt(s, i + 1) = 66 THEN [ok |-> TRUE, n |-> [k |-> "asrt", a |-> "nwb"], i |-> i + 2, nc |-> nc]
+    IF c = 94 THEN AsrtTerm(s, "bol", i + 1, nc)
+    ELSE IF c = 36 THEN AsrtTerm(s, "eol", i + 1, nc)
+    ELSE IF c = 92 /\ RxAt(s, i + 1) = 98 THEN AsrtTerm(s, "wb", i + 2, nc)
+    ELSE IF c = 92 /\ RxAt(s, i + 1) = 66 THEN AsrtTerm(s, "nwb", i + 2, nc)
     ELSE IF c = 40 /\ RxAt(s, i + 1) = 63 /\ RxAt(s, i + 2) \in {61, 33}      \* (?= (?!
     THEN LET d == ParseDisj(s, i + 3, nc) IN
          IF ~d.ok THEN d
@@ -167,13 +178,32 @@ ParseTerm(s, i, nc) ==
                 [] q.k = "ok" -> [ok |-> TRUE, i |-> q.i, nc |-> a.nc,
                                   n |-> [k |-> "q", min |-> q.min, max |-> q.max, greedy |-> q.greedy, a |-> a.n,
                                          pi |-> nc, pc |-> a.nc - nc]]
+(* the engine's own group syntax, accepted by the translation: (?flags) (?flags:...) (?P<name>...) (?<name>...) *)
+(* with flags from i m s U; the tree built here only serves the classification                               *)
+RECURSIVE SpanFlags(_, _)
+SpanFlags(s, j) == IF RxAt(s, j) \in {105, 109, 115, 85} THEN SpanFlags(s, j + 1) ELSE j
+RECURSIVE SpanName(_, _)
+SpanName(s, j) == IF IsAsciiLetter(RxAt(s, j)) \/ IsDec(RxAt(s, j)) \/ RxAt(s, j) = 95 THEN SpanName(s, j + 1) ELSE j
+GoGroup(s, i, nc) ==                              \* s[i] = "(", s[i+1] = "?"
+    LET j == SpanFlags(s, i + 2)
+        nm == IF RxAt(s, i + 2) = 80 /\ RxAt(s, i + 3) = 60 THEN i + 4 ELSE IF RxAt(s, i + 2) = 60 THEN i + 3 ELSE 0
+        body(k, nc2, cap) ==
+            LET d == ParseDisj(s, k, nc2) IN
+            IF ~d.ok THEN d ELSE IF RxAt(s, d.i) # 41 THEN PErr(FALSE)
+            ELSE [ok |-> TRUE, n |-> [k |-> "grp", cap |-> cap, d |-> d.n], i |-> d.i + 1, nc |-> d.nc]
+    IN  IF j > i + 2 /\ RxAt(s, j) = 41
+        THEN [ok |-> TRUE, n |-> [k |-> "grp", cap |-> 0, d |-> [k |-> "alt", alts |-> <<<<>>>>]], i |-> j + 1, nc |-> nc]
+        ELSE IF j > i + 2 /\ RxAt(s, j) = 58 THEN body(j + 1, nc, 0)
+        ELSE IF nm > 0 /\ SpanName(s, nm) > nm /\ RxAt(s, SpanName(s, nm)) = 62 THEN body(SpanName(s, nm) + 1, nc + 1, nc + 1)
+        ELSE PErr(FALSE)
 (* Atom :: PatternCharacter | . | \ AtomEscape | CharacterClass | ( Disjunction ) | (?: Disjunction ) *)
 ParseAtom(s, i, nc) ==
     LET c == s[i] IN
     CASE c = 46 -> [ok |-> TRUE, n |-> [k |-> "any"], i |-> i + 1, nc |-> nc]
       [] c = 40 ->
            IF RxAt(s, i + 1) = 63
-           THEN IF RxAt(s, i + 2) # 58 THEN PErr(FALSE)                       \* "(?" not followed by : = !
+           THEN IF RxAt(s, i + 2) # 58
+                THEN (IF D("D10_engine_group_syntax_accepted") THEN GoGroup(s, i, nc) ELSE PErr(FALSE))   \* "(?" not followed by : = !
                 ELSE LET d == ParseDisj(s, i + 3, nc) IN
                      IF ~d.ok THEN d
                      ELSE IF RxAt(s, d.i) # 41 THEN PErr(FALSE)              \* unterminated group
@@ -202,13 +232,34 @@ HasLook(n) ==
       [] n.k = "q" -> HasLook(n.a)
       [] OTHER -> FALSE
 
-(* Pattern :: Disjunction.  [ok, n, nc] or a syntax error *)
+RECURSIVE HasEmptyClass(_)
+HasEmptyClass(n) ==                               \* [] or [^]
+    CASE n.k = "alt" -> \E a \in 1..Len(n.alts) : \E t \in 1..Len(n.alts[a]) : HasEmptyClass(n.alts[a][t])
+      [] n.k = "set" -> Len(n.items) = 0
+      [] n.k \in {"grp", "look"} -> HasEmptyClass(n.d)
+      [] n.k = "q" -> HasEmptyClass(n.a)
+      [] OTHER -> FALSE
+
+RECURSIVE Nullable(_), HasNullableLoop(_)
+Nullable(n) ==                                    \* can the node match the empty string (syntactically)
+    CASE n.k = "alt" -> \E a \in 1..Len(n.alts) : \A t \in 1..Len(n.alts[a]) : Nullable(n.alts[a][t])
+      [] n.k \in {"asrt", "look", "bref"} -> TRUE
+      [] n.k = "grp" -> Nullable(n.d)
+      [] n.k = "q" -> n.min = 0 \/ Nullable(n.a)
+      [] OTHER -> FALSE
+HasNullableLoop(n) ==                             \* a quantified atom whose body can match the empty string
+    CASE n.k = "alt" -> \E a \in 1..Len(n.alts) : \E t \in 1..Len(n.alts[a]) : HasNullableLoop(n.alts[a][t])
+      [] n.k \in {"grp", "look"} -> HasNullableLoop(n.d)
+      [] n.k = "q" -> Nullable(n.a) \/ HasNullableLoop(n.a)
+      [] OTHER -> FALSE
+
+(* Pattern :: Disjunction.  [ok, n, nc, nl] or a syntax error *)
 RxParse(src) ==
     LET d == ParseDisj(src, 1, 0) IN
     IF ~d.ok THEN d
     ELSE IF d.i <= Len(src) THEN PErr(FALSE)                                \* unmatched ")"
     ELSE IF \E b \in Brefs(d.n) : b > d.nc THEN PErr(TRUE)                  \* 15.10.2.9: n > NCapturingParens
-    ELSE [ok |-> TRUE, n |-> d.n, nc |-> d.nc]
+    ELSE [ok |-> TRUE, n |-> d.n, nc |-> d.nc, nl |-> HasNullableLoop(d.n)]
 
 (* the constructs outside the portable subset: valid ES5, not translatable *)
 RxUnsupported(P) == Brefs(P.n) # {} \/ HasLook(P.n)
@@ -238,7 +289,7 @@ EscHas(C, e, ch) ==
     CASE e = 100 -> IsDec(ch)
       [] e = 68 -> ~IsDec(ch)
       [] e = 119 -> \E a \in WordSet : Cz(C, a) = Cz(C, ch)
-      [] e = 87 -> ch \notin WordSet
+      [] e = 87 -> ch \notin WordSet /\ (D("D10_icase_simple_fold") => Cz(C, ch) \notin WordSet)   \* folded complement
       [] e = 115 -> ch \in SpaceSet
       [] e = 83 -> ch \notin SpaceSet
 ItemHas(C, it, ch) ==
@@ -295,16 +346,74 @@ RxRun(C, todo, e, cap) ==
                         ELSE LET z == RxRun(C, body, e, capr)               \* steps 7-9
                              IN  IF z.ok THEN z ELSE RxRun(C, rest, e, cap)
           [] t.k = "chk" ->                                                 \* step 2: continuation d
-               IF e = t.e0 /\ D("D10_empty_iteration_leaves_loop") THEN RxRun(C, rest, e, cap)
-               ELSE IF t.min = 0 /\ e = t.e0 THEN RxFail                    \* step 2.1: empty iteration
+               IF t.min = 0 /\ e = t.e0 THEN RxFail                    \* step 2.1: empty iteration
                ELSE RxRun(C, <<[k |-> "rep", q |-> t.q, min |-> IF t.min = 0 THEN 0 ELSE t.min - 1,
                                 max |-> IF t.max = -1 THEN -1 ELSE t.max - 1]>> \o rest, e, cap)
 RxAlts(C, alts, i, rest, e, cap) ==
     LET z == RxRun(C, alts[i] \o rest, e, cap)
     IN  IF z.ok \/ i = Len(alts) THEN z ELSE RxAlts(C, alts, i + 1, rest, e, cap)
 
+(* The implementation's engine on patterns with a quantified atom whose body  *)
+(* can match the empty string (named deviation only).  Go's regexp explores   *)
+(* the same alternatives in the same priority order, but (i) a thread that    *)
+(* reaches a program point it has already reached at the same input position  *)
+(* is dropped (the visited set of backtrack.go / the thread list of the Pike   *)
+(* VM) - this replaces the "empty iteration fails" rule of 15.10.2.5 step 2.1  *)
+(* - and (ii) quantifiers are compiled as in regexp/syntax: x{n,m} = n copies  *)
+(* and m-n nested optional copies, x{n,} = n-1 copies and x+, x* = (x+)? when  *)
+(* x can match the empty string.  A program point is the todo list (without    *)
+(* the dynamic start offsets of open groups); frames:                          *)
+(*   [k "gl", q] the loop instruction L: alt(body -> L, exit)                  *)
+(*   [k "ge", q] the entry of (x+)?      [k "gcopy", q, left] copies before x+ *)
+(*   [k "gcopyf", q, left, opt], [k "gq", q, left]  copies / nested optionals  *)
+GoKey(todo, e) == <<[j \in 1..Len(todo) |-> IF todo[j].k = "close" THEN [k |-> "close", idx |-> todo[j].idx] ELSE todo[j]], e>>
+RECURSIVE GoRun(_, _, _, _, _), GoAlts(_, _, _, _, _, _, _)
+GoChoice(C, first, second, e, capFirst, capSecond, vis) ==
+    LET z == GoRun(C, first, e, capFirst, vis) IN IF z.ok THEN z ELSE GoRun(C, second, e, capSecond, z.vis)
+GoRun(C, todo, e, cap, vis) ==
+    IF Len(todo) = 0 THEN [ok |-> TRUE, e |-> e, cap |-> cap, vis |-> vis]
+    ELSE IF GoKey(todo, e) \in vis THEN [ok |-> FALSE, vis |-> vis]
+    ELSE LET t == todo[1]
+             rest == Tail(todo)
+             v1 == vis \cup {GoKey(todo, e)}
+             more == e < Len(C.inp)
+             no == [ok |-> FALSE, vis |-> v1]
+             capr(q) == IF D("D10_captures_not_reset") THEN cap ELSE ResetCaps(cap, q.pi, q.pc)
+             body(q, tail) == <<q.a, tail>> \o rest
+    IN  CASE t.k = "chr" -> IF more /\ Cz(C, C.inp[e + 1]) = Cz(C, t.u) THEN GoRun(C, rest, e + 1, cap, v1) ELSE no
+          [] t.k = "any" -> IF more /\ C.inp[e + 1] \notin RxDotExcl THEN GoRun(C, rest, e + 1, cap, v1) ELSE no
+          [] t.k = "set" -> IF more /\ (SetHas(C, t.items, C.inp[e + 1]) # t.neg) THEN GoRun(C, rest, e + 1, cap, v1) ELSE no
+          [] t.k = "asrt" -> IF AsrtOK(C, t.a, e) THEN GoRun(C, rest, e, cap, v1) ELSE no
+          [] t.k = "alt" -> GoAlts(C, t.alts, 1, rest, e, cap, v1)
+          [] t.k = "grp" ->
+               GoRun(C, <<t.d>> \o (IF t.cap > 0 THEN <<[k |-> "close", idx |-> t.cap, s |-> e]>> ELSE <<>>) \o rest, e, cap, v1)
+          [] t.k = "close" -> GoRun(C, rest, e, [cap EXCEPT ![t.idx] = <<t.s, e>>], v1)
+          [] t.k = "q" ->
+               IF t.max = -1
+               THEN (IF t.min = 0 THEN GoRun(C, <<[k |-> IF Nullable(t.a) THEN "ge" ELSE "gl", q |-> t]>> \o rest, e, cap, v1)
+                     ELSE GoRun(C, <<[k |-> "gcopy", q |-> t, left |-> t.min - 1]>> \o rest, e, cap, v1))
+               ELSE GoRun(C, <<[k |-> "gcopyf", q |-> t, left |-> t.min, opt |-> t.max - t.min]>> \o rest, e, cap, v1)
+          [] t.k = "gcopy" ->                                               \* x{n,}: n-1 copies, then x+ = body ; L
+               GoRun(C, body(t.q, IF t.left > 0 THEN [t EXCEPT !.left = t.left - 1] ELSE [k |-> "gl", q |-> t.q]), e, capr(t.q), v1)
+          [] t.k = "gcopyf" ->                                              \* x{n,m}: n copies, then the optional ones
+               IF t.left > 0 THEN GoRun(C, body(t.q, [t EXCEPT !.left = t.left - 1]), e, capr(t.q), v1)
+               ELSE GoRun(C, <<[k |-> "gq", q |-> t.q, left |-> t.opt]>> \o rest, e, cap, v1)
+          [] t.k = "gq" ->                                                  \* (x(x(x)?)?)?
+               IF t.left = 0 THEN GoRun(C, rest, e, cap, v1)
+               ELSE IF t.q.greedy THEN GoChoice(C, body(t.q, [t EXCEPT !.left = t.left - 1]), rest, e, capr(t.q), cap, v1)
+               ELSE GoChoice(C, rest, body(t.q, [t EXCEPT !.left = t.left - 1]), e, cap, capr(t.q), v1)
+          [] t.k \in {"ge", "gl"} ->                                        \* alt(body -> L, exit)
+               IF t.q.greedy THEN GoChoice(C, body(t.q, [k |-> "gl", q |-> t.q]), rest, e, capr(t.q), cap, v1)
+               ELSE GoChoice(C, rest, body(t.q, [k |-> "gl", q |-> t.q]), e, cap, capr(t.q), v1)
+GoAlts(C, alts, i, rest, e, cap, vis) ==
+    LET z == GoRun(C, alts[i] \o rest, e, cap, vis)
+    IN  IF z.ok \/ i = Len(alts) THEN z ELSE GoAlts(C, alts, i + 1, rest, e, cap, z.vis)
+
 (* [[Match]](S, index) of 15.10.2.2 *)
-RxMatchAt(C, P, i) == RxRun(C, <<P.n>>, i, [j \in 1..P.nc |-> UndefCap])
+RxMatchAt(C, P, i) ==
+    IF D("D10_nullable_loop_engine_semantics") /\ P.nl
+    THEN GoRun(C, <<P.n>>, i, [j \in 1..P.nc |-> UndefCap], {})
+    ELSE RxRun(C, <<P.n>>, i, [j \in 1..P.nc |-> UndefCap])
 
 (* the search loop of 15.10.6.2 step 9: first index >= i with a match *)
 RECURSIVE RxFindFrom(_, _, _)
@@ -319,7 +428,7 @@ RxFindFrom(C, P, i) ==
 (* flags and the current VALUE of the writable lastIndex property.           *)
 RxFlags(f) ==                                   \* F contains only g, i, m, each at most once
     LET cnt(u) == Cardinality({j \in 1..Len(f) : f[j] = u}) IN
-    IF (\E j \in 1..Len(f) : f[j] \notin {103, 105, 109}) \/ cnt(103) > 1 \/ cnt(105) > 1 \/ cnt(109) > 1
+    IF (~D("D10_unknown_flags_ignored") /\ \E j \in 1..Len(f) : f[j] \notin {103, 105, 109}) \/ cnt(103) > 1 \/ cnt(105) > 1 \/ cnt(109) > 1
     THEN [ok |-> FALSE]
     ELSE [ok |-> TRUE, g |-> cnt(103) = 1, ic |-> cnt(105) = 1, ml |-> cnt(109) = 1]
 (* "ok" | "syntax" (SyntaxError required) | "lax" (ES5 grammar rejects, the   *)
@@ -337,12 +446,43 @@ RxNew(src, flags) ==                            \* for RxClassify(src, flags) = 
 (* "some error" (the property does not fix the class for untranslatable patterns)              *)
 RxConstruct(src, flags) ==
     LET c == RxClassify(src, flags) IN
-    IF c = "ok" THEN [thr |-> "", X |-> RxNew(src, flags)]
+    IF c = "ok" THEN (IF D("D10_empty_class_rejected") /\ HasEmptyClass(RxParse(src).n) THEN [thr |-> "SyntaxError"]
+                      ELSE [thr |-> "", X |-> RxNew(src, flags)])
     ELSE IF c = "unsupported" THEN [thr |-> "Unsupported"]
     ELSE [thr |-> "SyntaxError"]                                            \* 15.10.4.1
+(* The translation layer's own bracket scan (it reports unmatched ")", an unterminated group or class *)
+(* itself, every other malformation is left to the engine's compiler): needed by a deviation only.   *)
+RECURSIVE OBracket(_, _), OGroup(_, _), OScan(_, _)
+OBracket(s, i) ==                                 \* i just after "[": [i |-> after "]", bad]
+    IF i > Len(s) THEN [i |-> i, bad |-> TRUE]
+    ELSE IF s[i] = 93 THEN [i |-> i + 1, bad |-> FALSE]
+    ELSE OBracket(s, IF s[i] = 92 THEN i + 2 ELSE i + 1)
+OGroup(s, i) ==                                   \* i just after "("
+    IF i > Len(s) THEN [i |-> i, bad |-> TRUE]
+    ELSE IF s[i] = 41 THEN [i |-> i + 1, bad |-> FALSE]
+    ELSE IF s[i] = 92 THEN OGroup(s, i + 2)
+    ELSE IF s[i] = 40 THEN (LET g == OGroup(s, i + 1) IN IF g.bad THEN g ELSE OGroup(s, g.i))
+    ELSE IF s[i] = 91 THEN (LET b == OBracket(s, i + 1) IN IF b.bad THEN b ELSE OGroup(s, b.i))
+    ELSE OGroup(s, i + 1)
+OScan(s, i) ==
+    IF i > Len(s) THEN FALSE
+    ELSE IF s[i] = 41 THEN TRUE
+    ELSE IF s[i] = 92 THEN OScan(s, i + 2)
+    ELSE IF s[i] = 40 THEN (LET g == OGroup(s, i + 1) IN g.bad \/ OScan(s, g.i))
+    ELSE IF s[i] = 91 THEN (LET b == OBracket(s, i + 1) IN b.bad \/ OScan(s, b.i))
+    ELSE OScan(s, i + 1)
+(* the constructor reached through new RegExp ("ctor") or a literal ("lit") *)
+RxConstructF(src, flags, form) ==
+    LET k == RxConstruct(src, flags) IN
+    IF k.thr = "SyntaxError" /\ form = "ctor" /\ D("D10_malformed_pattern_typeerror") /\ RxFlags(flags).ok /\ OScan(src, 1)
+    THEN [thr |-> "TypeError"] ELSE k
 RxCtx(X, S) == [inp |-> S, ic |-> X.ic, ml |-> X.ml]
 
 RxSub(S, a, b) == SubSeq(S, a + 1, b)           \* substring [a, b) with 0-based offsets
+RECURSIVE Utf8Len(_)                              \* bytes of the UTF-8 form (BMP, no surrogates generated)
+Utf8Len(s) == IF Len(s) = 0 THEN 0 ELSE (IF s[1] < 128 THEN 1 ELSE IF s[1] < 2048 THEN 2 ELSE 3) + Utf8Len(Tail(s))
+(* an end offset as it is stored in lastIndex *)
+RxOff(S, e) == IF D("D10_lastindex_byte_offset") THEN Utf8Len(RxSub(S, 0, e)) ELSE e
 RxCapVal(S, c) == IF c[1] = -1 THEN Undef ELSE StrV(RxSub(S, c[1], c[2]))
 (* 15.10.6.2 steps 12-20: the result array, as                               *)
 (* [t |-> "match", index, input, caps |-> <<matched, capture 1, ...>>]       *)
@@ -369,7 +509,8 @@ RxExec(X, S) ==
                       THEN RxShift(RxFindFrom(RxCtx(X, RxSub(S, i0, len)), X.P, 0), i0)
                       ELSE RxFindFrom(RxCtx(X, S), X.P, i0)                 \* step 9
              IN  IF ~f.ok THEN failed
-                 ELSE [R |-> IF X.g THEN [X EXCEPT !.li = IntV(f.e)] ELSE X, \* step 11
+                 ELSE [R |-> IF X.g THEN [X EXCEPT !.li = IntV(RxOff(S, f.e))]
+                             ELSE X,                                        \* step 11
                        v |-> RxMatchArr(S, f), f |-> f]
 (* 15.10.6.3 test *)
 RxTest(X, S) == LET x == RxExec(X, S) IN [R |-> x.R, v |-> BoolV(x.f.ok)]
@@ -408,7 +549,7 @@ RxStrMatch(X, S) ==
          IN  IF Len(fs) = 0
              THEN [R |-> [X EXCEPT !.li = IntV(0)],
                    v |-> IF D("D10_match_global_no_match_undefined") THEN Undef ELSE Null]       \* step 8.g
-             ELSE [R |-> [X EXCEPT !.li = IF D("D10_match_global_lastindex_end") THEN IntV(fs[Len(fs)].e) ELSE IntV(0)],
+             ELSE [R |-> [X EXCEPT !.li = IF D("D10_match_global_lastindex_end") THEN IntV(RxOff(S, fs[Len(fs)].e)) ELSE IntV(0)],
                    v |-> ArrV([j \in 1..Len(fs) |-> StrV(RxSub(S, fs[j].s, fs[j].e))])]
 
 (* 15.5.4.11 Table 22: replacement text.  m = number of captures.            *)
@@ -434,13 +575,17 @@ RxExpand(rep, i, S, f) ==
                     IF c - 48 >= 1 /\ c - 48 <= m THEN capS(c - 48) \o RxExpand(rep, i + 2, S, f)
                     ELSE <<36>> \o RxExpand(rep, i + 1, S, f)
                [] OTHER -> <<36>> \o RxExpand(rep, i + 1, S, f)
-RxReplDefined(rep, m) ==
-    \A i \in 1..Len(rep) :
-        (rep[i] = 36 /\ (i = 1 \/ rep[i - 1] # 36) /\ IsDec(RxAt(rep, i + 1))) =>
-            LET c == rep[i + 1] - 48
-                two == IsDec(RxAt(rep, i + 2))
-                nn == IF two THEN c * 10 + (rep[i + 2] - 48) ELSE c
-            IN  nn = 0 \/ nn <= m
+RECURSIVE RxReplDefinedAt(_, _, _)
+RxReplDefinedAt(rep, i, m) ==
+    IF i >= Len(rep) THEN TRUE
+    ELSE IF rep[i] # 36 THEN RxReplDefinedAt(rep, i + 1, m)
+    ELSE LET c == rep[i + 1] IN
+         IF c \in {36, 38, 96, 39} THEN RxReplDefinedAt(rep, i + 2, m)
+         ELSE IF ~IsDec(c) THEN RxReplDefinedAt(rep, i + 1, m)
+         ELSE IF IsDec(RxAt(rep, i + 2))
+         THEN LET nn == (c - 48) * 10 + (rep[i + 2] - 48) IN (nn = 0 \/ nn <= m) /\ RxReplDefinedAt(rep, i + 3, m)
+         ELSE (c = 48 \/ c - 48 <= m) /\ RxReplDefinedAt(rep, i + 2, m)
+RxReplDefined(rep, m) == RxReplDefinedAt(rep, 1, m)
 
 (* 15.5.4.11 String.prototype.replace(regexp, replaceValue).  rv is          *)
 (*   [k |-> "str", s |-> units]                                              *)
@@ -463,13 +608,14 @@ RxStrReplace(X, S, rv) ==
               ELSE IF D("D10_replace_global_findall") THEN GoAll(X, S) ELSE es.fs
         r == RxReplLoop(S, fs, 1, 0, rv, [s |-> <<>>, log |-> <<>>])
         li == IF ~X.g THEN X.li                                             \* lastIndex is not mentioned for this case
-              ELSE IF D("D10_replace_global_lastindex") THEN (IF Len(fs) = 0 THEN X.li ELSE IntV(fs[Len(fs)].e))
+              ELSE IF D("D10_replace_global_lastindex") THEN (IF Len(fs) = 0 THEN X.li ELSE IntV(RxOff(S, fs[Len(fs)].e)))
               ELSE IntV(0)                                                  \* "in the same manner as in match, including the update of lastIndex"
     IN  [R |-> [X EXCEPT !.li = li], v |-> ArrV(<<StrV(r.s), ArrV(r.log)>>)]
 
 (* 15.5.4.12 String.prototype.search(regexp): lastIndex and global ignored, lastIndex unchanged *)
 RxStrSearch(X, S) ==
-    LET f == RxFindFrom(RxCtx(X, S), X.P, 0) IN [R |-> X, v |-> IntV(IF f.ok THEN f.s ELSE -1)]
+    LET f == RxFindFrom(RxCtx(X, S), X.P, 0)
+    IN  [R |-> X, v |-> IntV(IF ~f.ok THEN -1 ELSE IF D("D10_search_byte_offset") THEN Utf8Len(RxSub(S, 0, f.s)) ELSE f.s)]
 
 (* 15.5.4.14 String.prototype.split(separator, limit) with a RegExp separator *)
 RxLimit(limV) == IF limV.t = "undef" THEN MaxU32 ELSE ToUint32N(ToNumberPrim(limV))    \* step 5
